@@ -1,6 +1,7 @@
 import HH.PortablePanic
 import HH.Proofs.Obs
 import Mathlib.Tactic.IntervalCases
+import HH.Props.C09
 /-!
 # C08 — no safe API call sequence can panic, in any build profile (portable path, model level)
 
@@ -243,6 +244,24 @@ arbitrary bytes — so `history_ok` applies to every reachable hasher -/
 theorem constructors_inv (k : V4) (c : List (BitVec 8)) (hc : c.length = 164) :
     (P.new k).buffer.Inv ∧ P.default.buffer.Inv ∧ (P.fromCheckpoint c).buffer.Inv :=
   ⟨P.new_inv k, P.new_inv _, (P.fromCheckpoint_abs c hc).2⟩
+
+/-! ### SIMD back ends: the slices and indices of `remainder` (the only data-dependent slicing they
+do besides the shared `append` skeleton) are in range for every pending count — with the region
+exposing exactly `buffer.as_slice()` and NOTHING behind it (`rest = []`), an out-of-range slice or
+index, i.e. a panic, would make the footprint model return `none` -/
+
+theorem sse_remainder_no_oob (buf : List (BitVec 8)) (n : Nat) (hb : buf.length = 32) (h : n < 32) :
+    (FP.sseRemainder (C09.expose (buf.take n) []) n).isSome = true := by
+  rw [C09.sse_remainder_in_bounds buf n hb h []]; rfl
+theorem avx_remainder_no_oob (buf : List (BitVec 8)) (n : Nat) (hb : buf.length = 32) (h : n < 32) :
+    (FP.avxRemainder 0 (C09.expose (buf.take n) []) n).isSome = true := by
+  rw [C09.avx_remainder_in_bounds buf n hb h [] 0 rfl]; rfl
+theorem neon_remainder_no_oob (buf : List (BitVec 8)) (n : Nat) (hb : buf.length = 32) (h : n < 32) :
+    (FP.neonRemainder (C09.expose (buf.take n) []) n).isSome = true := by
+  rw [C09.neon_remainder_in_bounds buf n hb h []]; rfl
+theorem wasm_remainder_no_oob (bytes : List (BitVec 8)) (h : bytes.length < 32) :
+    (FP.wasmRemainder (C09.expose bytes []) bytes.length).isSome = true := by
+  rw [C09.wasm_remainder_in_bounds bytes h []]; rfl
 
 /-- the defect of the pinned tree, in the panicking semantics: a count field of 32 restores
 `idx = 32`, and `finalize64` then panics in the debug profile (shift overflow), while release
